@@ -298,3 +298,10 @@ def c06_7(ctx, r):
     loops = [n for n in iter_own(chk.node) if isinstance(n, ast.For) and isinstance(n.iter, ast.Name) and n.iter.id == "must_be_same"]
     ok = bool(loops) and any(isinstance(x, ast.Raise) for x in ast.walk(loops[0]))
     r.check(ok, "a differing must_be_same value raises InvalidConfiguration", key_of(chk, "must_be_same raises"), chk.loc(), "the must_be_same comparison no longer raises")
+
+
+@rule(P, "C06.8", "T9+T1", "a batch leaves the active set only when the scheduler reports it finished or absent", min_obligations=6)
+def c06_8(ctx, r):
+    from .c18 import c18_3
+
+    c18_3(ctx, r)
